@@ -26,7 +26,7 @@ Const(n, c) == [i \in 1..n |-> c]
 Alt(n)   == [i \in 1..n |-> IF (i % 3) = 0 THEN 0 ELSE IF (i % 3) = 1 THEN 128 ELSE 127]
 Small(n) == [i \in 1..n |-> (i * 7) % 4]
 Inputs == {Ramp(N), Const(N, 255), Const(N, 128), Const(N, 0), Alt(N), Small(N)}
-Starts == {0, 16}
+Starts == {0, 5}          \* an odd start: position independence holds for aligned structures too (alignment is relative)
 
 VARIABLES case, inp, start, phase, val, dump, re
 vars == <<case, inp, start, phase, val, dump, re>>
